@@ -19,6 +19,8 @@ mod ownable_example;
 mod nft_ac_example;
 #[path = "../shared/ac_wrap.rs"]
 mod ac_wrap;
+#[path = "/repo/examples/timelock-controller/src/contract.rs"]
+mod tlc;
 
 #[derive(Clone, Copy, Debug, PartialEq, Eq, PartialOrd, Ord, Hash)]
 enum Who {
@@ -50,6 +52,8 @@ struct Model {
 enum Flavour {
     Ownable,
     AdminTransfer,
+    /// the timelock-controller example deployed with an EXTERNAL admin (its bootstrap configuration)
+    TimelockExternalAdmin,
 }
 
 struct Hs {
@@ -104,6 +108,11 @@ impl Hs {
             (Flavour::AdminTransfer, "renounce") => "renounce_admin",
             (Flavour::AdminTransfer, "use") => "admin_restricted_function",
             (Flavour::AdminTransfer, "get") => "get_admin",
+            (Flavour::TimelockExternalAdmin, "offer") => "transfer_admin_role",
+            (Flavour::TimelockExternalAdmin, "accept") => "accept_admin_transfer",
+            (Flavour::TimelockExternalAdmin, "renounce") => "renounce_admin",
+            (Flavour::TimelockExternalAdmin, "use") => "update_delay",
+            (Flavour::TimelockExternalAdmin, "get") => "get_admin",
             _ => unreachable!(),
         }
     }
@@ -117,7 +126,10 @@ impl Hs {
             }
             Op::Accept { by } => call_signed(e, &i.c, self.f("accept"), SVec::new(e), &i.signers(*by)).is_ok(),
             Op::Renounce { by } => call_signed(e, &i.c, self.f("renounce"), SVec::new(e), &i.signers(*by)).is_ok(),
-            Op::Use { by } => call_signed(e, &i.c, self.f("use"), SVec::new(e), &i.signers(*by)).is_ok(),
+            Op::Use { by } => {
+                let args: SVec<Val> = if matches!(self.flavour, Flavour::TimelockExternalAdmin) { (2u32,).into_val(e) } else { SVec::new(e) };
+                call_signed(e, &i.c, self.f("use"), args, &i.signers(*by)).is_ok()
+            }
             Op::Advance(k) => {
                 envx::advance(e, *k);
                 true
@@ -147,6 +159,7 @@ impl World for Hs {
         match self.flavour {
             Flavour::Ownable => format!("ownable-example@{}", self.start),
             Flavour::AdminTransfer => format!("access-control-admin-transfer@{}", self.start),
+            Flavour::TimelockExternalAdmin => format!("timelock-controller-with-external-admin@{}", self.start),
         }
     }
 
@@ -164,6 +177,12 @@ impl World for Hs {
                 nft_ac_example::ExampleContract,
                 (SString::from_str(&e, "u"), SString::from_str(&e, "n"), SString::from_str(&e, "s"), o.clone()),
             ),
+            Flavour::TimelockExternalAdmin => {
+                let mut proposers: SVec<Address> = SVec::new(&e);
+                proposers.push_back(a.clone());
+                let executors: SVec<Address> = SVec::new(&e);
+                e.register(tlc::TimelockController, (2u32, proposers, executors, Some(o.clone())))
+            }
         };
         (Inst { e, c, o, a, b }, Model { holder: Some(Who::O), pending: None })
     }
@@ -333,6 +352,7 @@ fn worlds(tier: Tier) -> Vec<Hs> {
     vec![
         Hs { flavour: Flavour::Ownable, start: 100, thorough: th },
         Hs { flavour: Flavour::AdminTransfer, start: 100, thorough: th },
+        Hs { flavour: Flavour::TimelockExternalAdmin, start: 100, thorough: th },
     ]
 }
 
